@@ -33,8 +33,19 @@ func (pass *DisjunctionWithNullToOptional) Process(schemas []*ast.Schema) ([]*as
 	return visitor.VisitSchemas(schemas)
 }
 
-func (pass *DisjunctionWithNullToOptional) processDisjunction(_ *Visitor, _ *ast.Schema, def ast.Type) (ast.Type, error) {
+func (pass *DisjunctionWithNullToOptional) processDisjunction(visitor *Visitor, schema *ast.Schema, def ast.Type) (ast.Type, error) {
 	disjunction := def.AsDisjunction()
+
+	// this hook replaces the visitor's own traversal: visit the branches, so that
+	// a `type | null` nested in a branch is simplified too
+	for i, branch := range disjunction.Branches {
+		newBranch, err := visitor.VisitType(schema, branch)
+		if err != nil {
+			return ast.Type{}, err
+		}
+
+		disjunction.Branches[i] = newBranch
+	}
 
 	if len(disjunction.Branches) != 2 || !disjunction.Branches.HasNullType() {
 		return def, nil
